@@ -21,12 +21,14 @@ package sm4
 //@ mode bv
 //@ strict_len dst, src
 //@ panics_if len(dst) < 16 || len(src) < 16
+//@ ensures block: cat16(dst) == sm4_crypt(old(cat16(src)), sm4.enc[0], sm4.enc[1], sm4.enc[2], sm4.enc[3], sm4.enc[4], sm4.enc[5], sm4.enc[6], sm4.enc[7], sm4.enc[8], sm4.enc[9], sm4.enc[10], sm4.enc[11], sm4.enc[12], sm4.enc[13], sm4.enc[14], sm4.enc[15], sm4.enc[16], sm4.enc[17], sm4.enc[18], sm4.enc[19], sm4.enc[20], sm4.enc[21], sm4.enc[22], sm4.enc[23], sm4.enc[24], sm4.enc[25], sm4.enc[26], sm4.enc[27], sm4.enc[28], sm4.enc[29], sm4.enc[30], sm4.enc[31])
 //@ assigns dst[0:16]
 
 //@ func (*sm4.sm4Cipher).Decrypt
 //@ mode bv
 //@ strict_len dst, src
 //@ panics_if len(dst) < 16 || len(src) < 16
+//@ ensures block: cat16(dst) == sm4_crypt(old(cat16(src)), sm4.dec[0], sm4.dec[1], sm4.dec[2], sm4.dec[3], sm4.dec[4], sm4.dec[5], sm4.dec[6], sm4.dec[7], sm4.dec[8], sm4.dec[9], sm4.dec[10], sm4.dec[11], sm4.dec[12], sm4.dec[13], sm4.dec[14], sm4.dec[15], sm4.dec[16], sm4.dec[17], sm4.dec[18], sm4.dec[19], sm4.dec[20], sm4.dec[21], sm4.dec[22], sm4.dec[23], sm4.dec[24], sm4.dec[25], sm4.dec[26], sm4.dec[27], sm4.dec[28], sm4.dec[29], sm4.dec[30], sm4.dec[31])
 //@ assigns dst[0:16]
 
 //@ func sm4.ensureCapacity
@@ -61,3 +63,78 @@ package sm4
 //@ ensures okprefix: !nonnil(result1) ==> forall(i, 0, len(dst), result0[i] == old(dst[i]))
 //@ ensures fail: nonnil(result1) ==> result0 == nil
 //@ assigns dst[len(dst):cap(dst)]
+
+// ---- portable SM4 against GB/T 32907 (spec in /verif/spec/sm4_bv.smt2) ----
+//@ define cat16(v) = cat(v[0], v[1], v[2], v[3], v[4], v[5], v[6], v[7], v[8], v[9], v[10], v[11], v[12], v[13], v[14], v[15])
+
+// constant tables: every entry equals the specification function at its index (ground obligations)
+//@ table sbox = sm4_sbox
+//@ table s0 = sm4_T0
+//@ table s1 = sm4_T1
+//@ table s2 = sm4_T2
+//@ table s3 = sm4_T3
+
+//@ func sm4.tau
+//@ mode bv
+//@ ensures tau: result == sm4_tau(a)
+//@ assigns nothing
+
+//@ func sm4.transTPrime
+//@ mode bv
+//@ ensures tp: result == sm4_Tp(a)
+//@ assigns nothing
+
+//@ func sm4.ss
+//@ mode bv
+//@ ensures t: result == sm4_T(t)
+//@ assigns nothing
+
+//@ func sm4.ssX2
+//@ mode bv
+//@ ensures t: result == cat(sm4_T(ext(63, 32, t)), sm4_T(ext(31, 0, t)))
+//@ assigns nothing
+
+//@ func sm4.cryptoBlock
+//@ mode bv
+//@ abstract sm4_T
+//@ requires len: len(x) >= 16 && len(y) >= 16
+//@ ensures block: cat16(y) == sm4_crypt(old(cat16(x)), rk[0], rk[1], rk[2], rk[3], rk[4], rk[5], rk[6], rk[7], rk[8], rk[9], rk[10], rk[11], rk[12], rk[13], rk[14], rk[15], rk[16], rk[17], rk[18], rk[19], rk[20], rk[21], rk[22], rk[23], rk[24], rk[25], rk[26], rk[27], rk[28], rk[29], rk[30], rk[31])
+//@ assigns y[0:16]
+
+//@ func sm4.cryptoBlockX2
+//@ mode bv
+//@ abstract sm4_T
+//@ requires len: len(x) >= 32 && len(y) >= 32
+//@ ensures lane0: cat16(y) == sm4_crypt(old(cat16(x)), rk[0], rk[1], rk[2], rk[3], rk[4], rk[5], rk[6], rk[7], rk[8], rk[9], rk[10], rk[11], rk[12], rk[13], rk[14], rk[15], rk[16], rk[17], rk[18], rk[19], rk[20], rk[21], rk[22], rk[23], rk[24], rk[25], rk[26], rk[27], rk[28], rk[29], rk[30], rk[31])
+//@ ensures lane1: cat16(y[16:32]) == sm4_crypt(old(cat16(x[16:32])), rk[0], rk[1], rk[2], rk[3], rk[4], rk[5], rk[6], rk[7], rk[8], rk[9], rk[10], rk[11], rk[12], rk[13], rk[14], rk[15], rk[16], rk[17], rk[18], rk[19], rk[20], rk[21], rk[22], rk[23], rk[24], rk[25], rk[26], rk[27], rk[28], rk[29], rk[30], rk[31])
+//@ assigns y[0:32]
+
+//@ func sm4.expandKey
+//@ mode bv
+//@ noalias
+//@ abstract sm4_Tp
+//@ requires len: len(mk) >= 16
+//@ ensures enc: enc[0] == sm4_rk0(old(cat16(mk))) && enc[1] == sm4_rk1(old(cat16(mk))) && enc[2] == sm4_rk2(old(cat16(mk))) && enc[3] == sm4_rk3(old(cat16(mk))) && enc[4] == sm4_rk4(old(cat16(mk))) && enc[5] == sm4_rk5(old(cat16(mk))) && enc[6] == sm4_rk6(old(cat16(mk))) && enc[7] == sm4_rk7(old(cat16(mk))) && enc[8] == sm4_rk8(old(cat16(mk))) && enc[9] == sm4_rk9(old(cat16(mk))) && enc[10] == sm4_rk10(old(cat16(mk))) && enc[11] == sm4_rk11(old(cat16(mk))) && enc[12] == sm4_rk12(old(cat16(mk))) && enc[13] == sm4_rk13(old(cat16(mk))) && enc[14] == sm4_rk14(old(cat16(mk))) && enc[15] == sm4_rk15(old(cat16(mk))) && enc[16] == sm4_rk16(old(cat16(mk))) && enc[17] == sm4_rk17(old(cat16(mk))) && enc[18] == sm4_rk18(old(cat16(mk))) && enc[19] == sm4_rk19(old(cat16(mk))) && enc[20] == sm4_rk20(old(cat16(mk))) && enc[21] == sm4_rk21(old(cat16(mk))) && enc[22] == sm4_rk22(old(cat16(mk))) && enc[23] == sm4_rk23(old(cat16(mk))) && enc[24] == sm4_rk24(old(cat16(mk))) && enc[25] == sm4_rk25(old(cat16(mk))) && enc[26] == sm4_rk26(old(cat16(mk))) && enc[27] == sm4_rk27(old(cat16(mk))) && enc[28] == sm4_rk28(old(cat16(mk))) && enc[29] == sm4_rk29(old(cat16(mk))) && enc[30] == sm4_rk30(old(cat16(mk))) && enc[31] == sm4_rk31(old(cat16(mk)))
+//@ ensures dec: dec[31] == enc[0] && dec[30] == enc[1] && dec[29] == enc[2] && dec[28] == enc[3] && dec[27] == enc[4] && dec[26] == enc[5] && dec[25] == enc[6] && dec[24] == enc[7] && dec[23] == enc[8] && dec[22] == enc[9] && dec[21] == enc[10] && dec[20] == enc[11] && dec[19] == enc[12] && dec[18] == enc[13] && dec[17] == enc[14] && dec[16] == enc[15] && dec[15] == enc[16] && dec[14] == enc[17] && dec[13] == enc[18] && dec[12] == enc[19] && dec[11] == enc[20] && dec[10] == enc[21] && dec[9] == enc[22] && dec[8] == enc[23] && dec[7] == enc[24] && dec[6] == enc[25] && dec[5] == enc[26] && dec[4] == enc[27] && dec[3] == enc[28] && dec[2] == enc[29] && dec[1] == enc[30] && dec[0] == enc[31]
+//@ assigns *enc, *dec
+
+//@ func sm4.NewCipher
+//@ mode bv
+//@ ensures bad: len(key) != 16 ==> result0 == nil && nonnil(result1)
+//@ ensures ok: len(key) == 16 ==> !nonnil(result1) && result0 != nil
+//@ ensures nokeyref: !reaches(result0, key)
+//@ assigns nothing
+
+//@ func sm4.newCipher
+//@ mode bv
+//@ requires len: len(key) == 16
+//@ ensures ok: !nonnil(result1) && result0 != nil
+//@ ensures nokeyref: !reaches(result0, key)
+//@ assigns nothing
+
+//@ func sm4.newCipherGeneric
+//@ mode bv
+//@ requires len: len(key) >= 16
+//@ ensures ok: !nonnil(result1) && result0 != nil
+//@ ensures nokeyref: !reaches(result0, key)
+//@ assigns nothing
